@@ -1519,6 +1519,43 @@ pub fn run(opts: &Opts) -> Report {
             rep.case(Some(&script.join("|")));
         }
     }
+    // ---------- C02: the cascade with one reverse index switched off in the configuration ----------
+    if property.map(|p| p == "C02").unwrap_or(true) {
+        for which in 0..7 {
+            let name = ["all-indices-on", "annotation_annotation_map-off", "textrelationmap-off", "resource_annotation_map-off", "dataset_annotation_map-off", "key_annotation_metamap-off", "data_annotation_metamap-off"][which];
+            let config = match which { 1 => Config::default().with_annotation_annotation_map(false), 2 => Config::default().with_textrelationmap(false), 3 => Config::default().with_resource_annotation_map(false), 4 => Config::default().with_dataset_annotation_map(false), 5 => Config::default().with_key_annotation_metamap(false), 6 => Config::default().with_data_annotation_metamap(false), _ => Config::default() };
+            for removal in 0..6 {
+                // with all indices on every removal is run; with one off, the removal that needs it
+                if which != 0 && removal + 1 != which { continue; }
+                let rname = ["annotation a0 (a1 is on it)", "resource r0 (a0 selects its text)", "resource r0 (a2 has it as metadata)", "dataset s0 (a3 has it as metadata)", "key k0 (a4 has it as metadata)", "data d0 (a5 has it as metadata)"][removal];
+                rep.count(&format!("cascade-config:{}", name));
+                rep.case(Some(&format!("cascade-config {} {}", name, removal)));
+                let ctx = vec![format!("configuration: {}", name), "r0 = 'hello world'; a0 = r0 0..5 with data s0/k0=v0 (d0); a1 on annotation a0; a2 on resource r0 (metadata); a3 on dataset s0; a4 on key s0/k0; a5 on data s0/d0".to_string(), format!("remove {}", rname)];
+                let cfg = config.clone();
+                let r = guarded(std::panic::AssertUnwindSafe(move || -> Result<(Result<(), String>, Vec<(String, String)>, Vec<String>), StamError> {
+                    let mut st = AnnotationStore::new(cfg).with_id("s").with_resource(TextResourceBuilder::new().with_id("r0").with_text("hello world"))?;
+                    st.annotate(AnnotationBuilder::new().with_id("a0").with_target(SelectorBuilder::textselector("r0", Offset::simple(0, 5))).with_data_with_id("s0", "k0", "v0", "d0"))?;
+                    st.annotate(AnnotationBuilder::new().with_id("a1").with_target(SelectorBuilder::annotationselector("a0", None)).with_data_with_id("s1", "k", "v1", "e1"))?;
+                    st.annotate(AnnotationBuilder::new().with_id("a2").with_target(SelectorBuilder::resourceselector("r0")).with_data_with_id("s1", "k", "v2", "e2"))?;
+                    st.annotate(AnnotationBuilder::new().with_id("a3").with_target(SelectorBuilder::datasetselector("s0")).with_data_with_id("s1", "k", "v3", "e3"))?;
+                    st.annotate(AnnotationBuilder::new().with_id("a4").with_target(SelectorBuilder::datakeyselector("s0", "k0")).with_data_with_id("s1", "k", "v4", "e4"))?;
+                    st.annotate(AnnotationBuilder::new().with_id("a5").with_target(SelectorBuilder::annotationdataselector("s0", "d0")).with_data_with_id("s1", "k", "v5", "e5"))?;
+                    let res: Result<(), StamError> = match removal { 0 => st.remove_annotation("a0"), 1 | 2 => st.remove_resource("r0"), 3 => st.remove_dataset("s0"), 4 => st.remove_key("s0", "k0", true), _ => st.remove_data("s0", "d0", true) };
+                    let dangling: Vec<(String, String)> = consistency(&st).into_iter().filter(|(sig, _)| sig.starts_with("dangling")).collect();
+                    let mut left: Vec<String> = st.annotations().map(|a| a.id().unwrap_or("~").to_string()).collect(); left.sort();
+                    Ok((res.map_err(|e| format!("{}", e)), dangling, left))
+                }));
+                match r {
+                    Err(m) => rep.fail("panic", &format!("C02/cascade-config/{}/panic", name), ctx, "a removal", &m),
+                    Ok(Err(e)) => rep.fail("oracle", &format!("C02/cascade-config/{}/store-not-built", name), ctx, "a store", &format!("{}", e)),
+                    Ok(Ok((res, dangling, left))) => {
+                        if let Some((sig, detail)) = dangling.first() { rep.fail("oracle", &format!("C02/cascade-config/{}/{}", name, sig), ctx, "every surviving annotation's target and data resolve", &format!("removal returned {:?}; {}; annotations left: {:?}", res, detail, left)); }
+                        else if let Err(e) = res { rep.fail("oracle", &format!("C02/cascade-config/{}/refused", name), ctx, "the removal succeeds (the item exists)", &e); }
+                    }
+                }
+            }
+        }
+    }
     // ---------- C01: compaction (`reindex()`) after removals: every item, named by its identifier, still refers to and is
     // referred to by the same items ----------
     if property.map(|p| p == "C01").unwrap_or(true) {
